@@ -117,6 +117,10 @@ type sim struct {
 	ppZ []bool // the members that receive the COMMITs of the scripted rounds
 	// scenario family "stale votes" (see body)
 	staleVotes bool
+	// comparator in table mode: cmpFail[member][value] = that member's local data makes it refuse that value
+	// (nil = class mode: values >= 103 and < 103 are mutually unacceptable)
+	cmpFail []map[int64]bool
+	cmpLock bool // scenario family "compare-failure lock" (see body)
 }
 
 type voteKey struct {
@@ -224,7 +228,21 @@ func body(c *kernel.Ctx) {
 		sameInput = false
 		compareOn = false
 	}
-	if s.mode == modeByz && !splitLocks && !pingPong {
+	// Scenario family "compare-failure lock" (n=4, one helper Byzantine member): member X's local data makes it
+	// refuse the round-1 value (it sends no PREPARE) but the PREPARE quorum reaches X and the leader only, so X
+	// still locks on that value and COMMITs it; the COMMITs reach the leader only, which decides and stops. In
+	// round 2 X's ROUND-CHANGE is the ONLY carrier of the lock that reaches the new leader - a member that
+	// refused a value must still report that it is prepared on it.
+	cmpLock := s.mode == modeByz && !splitLocks && !pingPong && s.n == 4 && (verifrt.Intn("cfg", 5) == 4 || os.Getenv("VERIF_QBFT_CMPLOCK") != "") // env: development aid
+	if cmpLock {
+		nb = 1
+		s.byz[s.leader(3)] = true
+		s.ppK = 1
+		sameInput = false
+		compareOn = true
+		s.cmpLock = true
+	}
+	if s.mode == modeByz && !splitLocks && !pingPong && !cmpLock {
 		nb = 1 + verifrt.Intn("cfg", s.f)
 		for i := 0; i < nb; i++ {
 			p := verifrt.Intn("cfg", s.n)
@@ -307,6 +325,33 @@ func body(c *kernel.Ctx) {
 		s.maxLat = time.Duration(1+verifrt.Intn("cfg", 150)) * time.Millisecond
 		s.staleVotes = true
 		verifrt.Probe("scenario:stale-votes")
+	} else if cmpLock {
+		l, x := int(s.leader(1)), -1
+		for i := 0; i < s.n; i++ {
+			if !s.byz[i] && i != l && i != int(s.leader(2)) {
+				x = i
+			}
+		}
+		all, notXL, notL := make([]bool, s.n), make([]bool, s.n), make([]bool, s.n)
+		for i := range all {
+			all[i], notXL[i], notL[i] = true, i != x && i != l, i != l
+		}
+		s.ppX = []int{0, x}
+		s.ppZ = make([]bool, s.n)
+		s.ppZ[l] = true // the helper's round-1 COMMIT goes to the leader only
+		s.rules = []dropRule{
+			{typ: qbft.MsgPrepare, round: 1, from: all, to: notXL},
+			{typ: qbft.MsgCommit, round: 1, from: all, to: notL},
+		}
+		s.cmpFail = make([]map[int64]bool, s.n)
+		for i := range s.cmpFail {
+			s.cmpFail[i] = map[int64]bool{}
+		}
+		s.cmpFail[x][alphabet[l%len(alphabet)]] = true // X refuses the round-1 leader's value, nothing else
+		s.dropPct, s.longPct, s.part.side = 0, 0, nil
+		s.maxLat = time.Duration(1+verifrt.Intn("cfg", 150)) * time.Millisecond
+		s.stopOnDecide = verifrt.Intn("cfg", 4) != 3
+		verifrt.Probe("scenario:compare-failure-lock")
 	} else if pingPong {
 		var hon []int
 		for i := 0; i < s.n; i++ {
@@ -377,6 +422,19 @@ func body(c *kernel.Ctx) {
 			}
 			s.rules = append(s.rules, r)
 		}
+	}
+	if compareOn && s.cmpFail == nil && s.mode != modeTimely && verifrt.Intn("cfg", 2) == 1 {
+		// comparator in table mode: each member refuses a seeded quarter of the values
+		s.cmpFail = make([]map[int64]bool, s.n)
+		for i := range s.cmpFail {
+			s.cmpFail[i] = map[int64]bool{}
+			for _, v := range []int64{99, 101, 102, 103, 104, 105} {
+				if verifrt.Intn("cfg", 4) == 3 {
+					s.cmpFail[i][v] = true
+				}
+			}
+		}
+		verifrt.Probe("comparator:table-mode")
 	}
 	s.inbox = make([]chan M, s.n)
 	s.mctx = make([]context.Context, s.n)
@@ -516,7 +574,13 @@ func body(c *kernel.Ctx) {
 					valCh <- v
 				}
 				lv, _ := m.ValueSource()
-				if (lv >= 103) != (src >= 103) { // "source/target differ"
+				if s.cmpFail != nil {
+					if s.cmpFail[p][lv] {
+						verifrt.Probe("comparator:refused")
+						errCh <- fmt.Errorf("compare mismatch")
+						return
+					}
+				} else if (lv >= 103) != (src >= 103) { // "source/target differ"
 					errCh <- fmt.Errorf("compare mismatch")
 					return
 				}
